@@ -1,6 +1,6 @@
 (* Extraction of the executable models to OCaml (ExtrOcamlBasic only; N, Z, positive, nat stay Coq datatypes). *)
 Require Extraction.
 Require Import ExtrOcamlBasic.
-From WC Require Import Str WcParse WcSplit Expand Spec Norm Escape.
+From WC Require Import Str WcParse WcSplit Expand Spec Norm Escape Glob.
 Extraction Language OCaml.
-Extraction "../driver/model.ml" wcparse linux wcsplit pattern_lists den pden unparse punparse norm_pattern escape is_magic.
+Extraction "../driver/model.ml" wcparse linux wcsplit pattern_lists den pden unparse punparse norm_pattern escape is_magic glob_all.
